@@ -392,6 +392,13 @@ func c09(args []string) {
 			runPipeline(w, in, capsets[i%len(capsets)], "lag", nil, rng, p)
 			runtime.GOMAXPROCS(old)
 		}
+		nscr := 60
+		if thorough {
+			nscr = 300
+		}
+		for i := 0; i < nscr; i++ {
+			runScripted(w, rng, []int{1, 1, 4, 2}[i%4])
+		}
 		for i := 0; i < 4+nfree/20; i++ {
 			in := wellStructuredFrames(rng, 6+rng.Intn(10))
 			capsets := [][]int{{-1, 0, 1}, {0, -1, -1, 2}, {-1, -1, 0}, {1, 0}}
@@ -424,4 +431,142 @@ func wellStructuredFrames(rng *rand.Rand, n int) []byte {
 		in = append(in, gen.Frame(rng, gen.TypeClass(rng, k), 1+rng.Intn(40), 0)...)
 	}
 	return in
+}
+
+// ---- scripted interaction: feed / receive / settle steps at a coarse grain (no hooks needed) -------------------
+type feedSource struct {
+	mu     sync.Mutex
+	cond   *sync.Cond
+	data   []byte
+	closed bool
+}
+
+func newFeedSource() *feedSource { f := &feedSource{}; f.cond = sync.NewCond(&f.mu); return f }
+func (f *feedSource) Feed(b []byte) {
+	f.mu.Lock()
+	f.data = append(f.data, b...)
+	f.mu.Unlock()
+	f.cond.Signal()
+}
+func (f *feedSource) Close() { f.mu.Lock(); f.closed = true; f.mu.Unlock(); f.cond.Signal() }
+func (f *feedSource) Read(p []byte) (int, error) {
+	f.mu.Lock()
+	defer f.mu.Unlock()
+	for len(f.data) == 0 && !f.closed {
+		f.cond.Wait()
+	}
+	if len(f.data) == 0 {
+		return 0, io.EOF
+	}
+	n := copy(p, f.data)
+	f.data = f.data[n:]
+	return n, nil
+}
+
+// runScripted: a slow consumer with a one-slot channel receives in bursts chosen by a seeded script while the
+// input arrives in bursts chosen by the same script, with settle pauses in between; a second consumer never blocks.
+func runScripted(w *tr.Writer, rng *rand.Rand, procs int) {
+	nmsg := 6 + rng.Intn(8)
+	frames := make([][]byte, nmsg)
+	var in []byte
+	for i := range frames {
+		frames[i] = gen.Frame(rng, 4001+i, 6, 0)
+		in = append(in, frames[i]...)
+	}
+	ref := sequentialRef(in, c09Start)
+	slow := make(chan handler.Message, 1)
+	fast := make(chan handler.Message, 4*nmsg)
+	chans := []chan handler.Message{slow, nil, fast}
+	w.Emit(c09Case{"case", ref, 2, "scripted", []int{1, -1, 4 * nmsg}, len(in), procs})
+	old := runtime.GOMAXPROCS(procs)
+	defer runtime.GOMAXPROCS(old)
+	base := runtime.NumGoroutine()
+	verifhook.Handler = nil
+	src := newFeedSource()
+	ret := make(chan string, 1)
+	go func() {
+		ret <- tr.Recover(func() {
+			appcore.New(&jsonconfig.Config{}, chans).HandleMessagesUntilEOF(c09Start, bufio.NewReader(src))
+		})
+	}()
+	const settle = 15 * time.Millisecond
+	fed, got := 0, 0
+	end := c09End{Ev: "end"}
+	recv := func() bool {
+		select {
+		case m := <-slow:
+			mm := m
+			w.Emit(c09Recv{"recv", 1, msgDigest(&mm)})
+			got++
+			return true
+		case <-time.After(5 * time.Second):
+			return false
+		}
+	}
+	feed := func(k int) {
+		for i := 0; i < k && fed < nmsg; i++ {
+			src.Feed(frames[fed])
+			fed++
+		}
+	}
+	// build a backlog first: several messages arrive while the slow consumer takes nothing
+	feed(3 + rng.Intn(3))
+	time.Sleep(settle)
+	for fed < nmsg || got < nmsg {
+		if got < fed {
+			// the consumer takes a burst ...
+			k := 1 + rng.Intn(minInt2(3, fed-got))
+			ok := true
+			for i := 0; i < k && ok; i++ {
+				ok = recv()
+			}
+			if !ok {
+				break // reported as missing messages
+			}
+			// ... and new input arrives either at that very moment or after things have settled
+			if rng.Intn(2) == 0 {
+				time.Sleep(settle)
+			}
+		}
+		if fed < nmsg && (got >= fed || rng.Intn(3) != 0) {
+			feed(1 + rng.Intn(2))
+			if rng.Intn(4) != 0 {
+				time.Sleep(settle)
+			}
+		}
+	}
+	src.Close()
+	select {
+	case p := <-ret:
+		end.Returned, end.Panic = true, p
+	case <-time.After(10 * time.Second):
+	}
+	close(fast)
+	for m := range fast {
+		mm := m
+		w.Emit(c09Recv{"recv", 2, msgDigest(&mm)})
+	}
+	// anything still sitting in the slow channel
+	for {
+		select {
+		case m := <-slow:
+			mm := m
+			w.Emit(c09Recv{"recv", 1, msgDigest(&mm)})
+			continue
+		default:
+		}
+		break
+	}
+	if end.Returned {
+		end.Leaked = settle2(base)
+	}
+	w.Emit(end)
+}
+
+func settle2(base int) int { return settle(base) }
+func minInt2(a, b int) int {
+	if a < b {
+		return a
+	}
+	return b
 }
